@@ -52,7 +52,7 @@ def scenarios(tier: str) -> List[Dict[str, Any]]:
         for mi, mc in enumerate(mod_cfgs):
             for ii, ions in enumerate(ion_sets):
                 # rotate the remaining parameters so every value meets every ion set at least once per tier
-                reps = range(2) if tier == "quick" else range(4)
+                reps = range(4) if tier == "quick" else range(8)
                 for r in reps:
                     sc: Dict[str, Any] = {"seq": seq}
                     for key, val in mc.items():
@@ -63,10 +63,11 @@ def scenarios(tier: str) -> List[Dict[str, Any]]:
                         else:
                             sc[key] = val
                     sc["ions"] = ions
-                    sc["charges"] = charge_sets[(k + r) % len(charge_sets)]
-                    sc["isotopes"] = iso_sets[(k + 2 * r + mi) % len(iso_sets)]
-                    sc["loss_cfg"] = loss_cfgs[(k + r + ii) % len(loss_cfgs)]
-                    sc["mono"] = bool((k + r) % 2 == 0)
+                    # mixed radix over k (no two parameters share a period): mono fastest, then charges, isotopes, losses
+                    sc["mono"] = bool(k % 2 == 0)
+                    sc["charges"] = charge_sets[(k // 2) % len(charge_sets)]
+                    sc["isotopes"] = iso_sets[(k // 8 + mi) % len(iso_sets)]
+                    sc["loss_cfg"] = loss_cfgs[(k // 3 + ii) % len(loss_cfgs)]
                     out.append(sc)
                     k += 1
     return out
